@@ -1,4 +1,61 @@
-import Walleye.Model.MoveGen
+/-
+  C07 — running out of time anywhere in the search is safe.
+  The search model is a function of (position, table, ordering oracle, expiry index k); every
+  statement below holds for every game, every k (including "never"), every oracle.
+
+  Proved: `table_restored` (alpha-beta and the whole of get_best_move leave every repetition count
+  as given, on every normally finishing run); `sent_is_root_move` (every board handed back is a root
+  successor — at every point of the run, also if it ends by expiry, panic or fuel);
+  `inner_search_reports_nothing`; `expired_is_sticky_step` (once the clock said "out of time" it says
+  so at every later consultation).
+  Not proved (decided by the every-k sweep with order-log replay): `reports_prefix`
+  (a larger allowance only extends the reported improvements), `aborted_never_accepted`,
+  and the absence of index panics beyond ply 99 (L1 in DESIGN.md).
+-/
+import Walleye.Proofs.Reports
 namespace Walleye
-theorem C07_placeholder (c : Color) : c.opp.opp = c := Color.opp_opp c
+open DrawTable
+
+variable {P O : Type} (g : Game P) (ord : Oracle P O)
+
+theorem table_restored_alphaBeta (fuel : Nat) (p : P) (depth ply : Nat) (a b : Int) (n : Bool)
+    (s s' : SS P O) (v : Int) (h : alphaBeta g ord fuel p depth ply a b n s = .ok v s') :
+    ∀ k, count s'.table k = count s.table k :=
+  (alphaBeta_pres g ord fuel p depth ply a b n).triple s.table s v s' (TableEq.refl _) h
+
+theorem table_restored (fuel : Nat) (root : P) (s s' : SS P O) (h : getBestMove g ord fuel root s = .ok () s') :
+    ∀ k, count s'.table k = count s.table k :=
+  (getBestMove_pres g ord fuel root).triple s.table s () s' (TableEq.refl _) h
+
+theorem sent_is_root_move (hord : OrdSub ord) (fuel : Nat) (root : P) (s : SS P O) (hs : s.reports = #[]) :
+    ∀ q, Report.sent q ∈ (outState (getBestMove g ord fuel root s)).reports.toList → RootSucc g root q :=
+  getBestMove_sends_root_successors g ord hord fuel root s hs
+
+theorem inner_search_reports_nothing (fuel : Nat) (p : P) (d ply : Nat) (a b : Int) (n : Bool) (s : SS P O) :
+    (outState (alphaBeta g ord fuel p d ply a b n s)).reports = s.reports :=
+  alphaBeta_silent g ord fuel p d ply a b n s
+
+/-- the clock is a counter: a consultation that answers "out of time" is followed only by such answers -/
+theorem expired_is_sticky_step (s s1 s2 : SS P O) (b2 : Bool) (h1 : tick s = .ok true s1)
+    (hq : s1.queries ≤ s2.queries) (he : s2.expiry = s.expiry) (s3 : SS P O) (h2 : tick s2 = .ok b2 s3) : b2 = true := by
+  obtain ⟨e1, b1⟩ := tick_eq h1
+  obtain ⟨_, b2'⟩ := tick_eq h2
+  subst e1
+  rw [b2', he]
+  cases hk : s.expiry with
+  | none => rw [hk] at b1; cases b1
+  | some k =>
+    rw [hk] at b1
+    simp only at hq b1 ⊢
+    have : k ≤ s.queries := by simpa using b1.symm
+    simp only [decide_eq_true_eq]
+    omega
+
+/-- an aborted call returns the sentinel without touching the table or the reports -/
+theorem aborted_call_returns_sentinel (fuel : Nat) (p : P) (d ply : Nat) (a b : Int) (n : Bool) (s s1 : SS P O)
+    (ht : tick s = .ok true s1) : alphaBeta g ord (fuel + 1) p d ply a b n s = .ok (-Gen.posInf) s1 := by
+  unfold alphaBeta
+  rw [bind_of_ok ht]
+  rfl
+
 end Walleye
